@@ -58,7 +58,7 @@ M = 'bardolph/vm/machine.py'
 c = contract(M, 'Machine._bin_op', serves=['C02', 'C12', 'C06'], name='Machine._bin_op[DIV, MOD]')
 def _setup(b, case):
     m = lib.machine(b, 'LOGICAL', lib.light_set_with(b, {}))
-    st = m.attrs['_vm_math'].attrs['_eval_stack'].attrs['_stack']
+    st = b.I.getattr_(m.attrs['_vm_math'].attrs['_eval_stack'], '_stack')
     x, y = b.sym('int', 'x'), b.sym('int', 'y')
     st.items.extend([x, y])
     return {'self': m, 'operator': b.enum('bardolph.vm.vm_codes', 'Operator', case['op']), '_x': x, '_y': y}
@@ -88,3 +88,67 @@ def _setup(b, case):
 c.setup(_setup)
 c.crosscheck = False
 c.ensures('one-controller-from-the-start', 'result[0] is not None and result[1] is result[0] and result[2] is result[0]')
+
+
+# ---- configure() may be called again (the module is re-initialised): the job controller - and with it the running and
+#      queued jobs - stays
+c = contract(LS, 'configure_again', serves=['C08'], name='lemma:ls_module: queue; configure(); queue', src='''
+def configure_again(s1, s2):
+    first = LsModule._jobs
+    queue_script(s1)
+    configure()
+    queue_script(s2)
+    return (first, LsModule._jobs)
+''')
+def _setup(b, case):
+    mod = b.module('bardolph.controller.ls_module')
+    from pyvc.values import StaticMethod
+    sj = b.cls('bardolph.controller.script_job', 'ScriptJob')
+    sj.attrs['from_string'] = StaticMethod(Builtin('ScriptJob.from_string', lambda I_, a, k: Opaque('job', {'execute': lambda I2, o, a2, k2: None, 'request_stop': lambda I2, o, a2, k2: None})))
+    from .c08_job_control import thread_module_hook
+    thread_module_hook(b)
+    for modname, names in (('bardolph.controller.light_module', ('configure',)),):
+        m = b.module(modname)
+        for n in names:
+            m.ns[n] = Builtin(n, lambda I_, a, k: None)
+    st = b.module('bardolph.lib.settings')
+    chain = Opaque('settings_builder')
+    chain.methods.update(apply_env=lambda I_, o, a, k: chain, configure=lambda I_, o, a, k: None, add_overrides=lambda I_, o, a, k: chain)
+    st.ns['using'] = Builtin('using', lambda I_, a, k: chain)
+    return {'s1': b.sym('str', 'script1'), 's2': b.sym('str', 'script2')}
+c.setup(_setup)
+c.crosscheck = False
+c.ensures('the-same-controller', 'result[0] is not None and result[1] is result[0]')
+
+
+# ---- the command-line runner: one job object PER file, each loaded with its own file, queued in the order given
+RUN = 'bardolph/controller/run.py'
+c = contract(RUN, 'main', serves=['C08', 'C17'], name='run.main[three files]')
+def _setup(b, case):
+    mod = b.module('bardolph.controller.run')
+    files = [b.sym('str', 'file%d' % i) for i in range(3)]
+    args = Opaque('args', attrs={'file': PyList(list(files)), 'script': None, 'config_file': None, 'fakes': False, 'verbose': False})
+    mod.ns['init_args'] = Builtin('init_args', lambda I_, a, k: args)
+    mod.ns['init_settings'] = Builtin('init_settings', lambda I_, a, k: None)
+    for modname in ('bardolph.controller.light_module', 'bardolph.runtime.runtime_module'):
+        b.module(modname).ns['configure'] = Builtin('configure', lambda I_, a, k: None)
+    queued = b.ghost('queued', PyList())
+    jc = Opaque('job_control', {'add_job': lambda I_, o, a, k: queued.items.append(a[0])})
+    b.module('bardolph.lib.job_control').ns['JobControl'] = Builtin('JobControl', lambda I_, a, k: jc)
+    made = b.ghost('jobs_made', PyList())
+    def new_job(I_):
+        j = Opaque('script_job', attrs={'loaded': PyList()})
+        j.methods['load_file'] = lambda I2, o, a2, k2: o.attrs['loaded'].items.append(a2[0])
+        j.methods['load_string'] = lambda I2, o, a2, k2: o.attrs['loaded'].items.append(a2[0])
+        made.items.append(j)
+        return j
+    sj = Opaque('ScriptJob-class', {'from_file': lambda I_, o, a, k: (lambda j: (j.attrs['loaded'].items.append(a[0]), j)[1])(new_job(I_)),
+                                    'from_string': lambda I_, o, a, k: (lambda j: (j.attrs['loaded'].items.append(a[0]), j)[1])(new_job(I_)),
+                                    '__call__': lambda I_, o, a, k: new_job(I_)})
+    mod.ns['ScriptJob'] = sj
+    return {'_f0': files[0], '_f1': files[1], '_f2': files[2]}
+c.setup(_setup)
+c.crosscheck = False
+c.ensures('one-job-per-file-in-order', "len(ghost('queued')) == 3 and ghost('queued')[0] is not ghost('queued')[1] and ghost('queued')[1] is not ghost('queued')[2] "
+          "and ghost('queued')[0] is not ghost('queued')[2] and len(ghost('queued')[0].loaded) == 1 and ghost('queued')[0].loaded[0] == _f0 "
+          "and len(ghost('queued')[1].loaded) == 1 and ghost('queued')[1].loaded[0] == _f1 and len(ghost('queued')[2].loaded) == 1 and ghost('queued')[2].loaded[0] == _f2")
